@@ -102,6 +102,18 @@ def check_case(ctx, pm, D, order_seed, tmpdir):
     # M3: reload and observe
     try:
         ci2 = pm.ComposeInfo()
+        # the reader is not always pristine: its (still empty) header was inspected, or it refused a truncated file before
+        reader = order_seed % 4
+        if reader == 1:
+            ci2.header.version_tuple
+            ctx.count("reader-header-inspected-before-load")
+        elif reader == 2:
+            for junk in ("", '{"header": {"version": "0.1"}}', '{"header": {"version": "1.2", "type": "productmd.composeinfo"}}'):
+                try:
+                    ci2.loads(junk)
+                except Exception:
+                    pass
+            ctx.count("reader-refused-a-truncated-file-before")
         ci2.loads(t1)
         obs, structural = F.observe(ci2)
         diffs = F.diff(E_obs, obs)
